@@ -279,7 +279,9 @@ def g_gadget(r, const_only=None):
         return "%s %s %d %s %s %s %s" % (op, name, w, x, y, a(mw()), a(mw()))
     if name == "maskbits":
         cnt = r.choice([0, 1, 7, 8, 63, 64, 65, 8 * w - 1, 8 * w, r.randrange(8 * w + 1)])
-        if r.random() < 0.03:
+        if w == 1 and r.random() < 0.1:
+            cnt = 256 * r.randint(1, 3) + r.randint(0, 12)   # F34: bit count truncated by the enclosing Lsh
+        elif r.random() < 0.03:
             cnt = 8 * w + r.randint(1, 8)  # rejected by the constructor when <= 64 bits do not fit
         return "%s maskbits %d %d %s" % (op, w, cnt, a(mw()))
     raise AssertionError(name)
